@@ -3,6 +3,7 @@ package vc
 import (
 	"fmt"
 	"go/types"
+	"math/big"
 
 	"golang.org/x/tools/go/ssa"
 )
@@ -62,7 +63,7 @@ func inRegion(st *State, p, n Term) Term {
 	ds = append(ds, Eq(nu, BVInt(0, 64, false)))
 	lim := BVInt(addrLimit, 64, false)
 	for _, rg := range st.regions {
-		ds = append(ds, And(Le(rg.Base, pu), Le(nu, lim), Le(pu, lim), Le(Add(pu, nu), Add(rg.Base, rg.Size))))
+		ds = append(ds, And(rg.Cond, Le(rg.Base, pu), Le(BVInt(0, 64, false), nu), Le(nu, lim), Le(pu, lim), Le(Add(pu, nu), Add(rg.Base, rg.Size))))
 	}
 	return Or(ds...)
 }
@@ -112,11 +113,12 @@ func inMemset(r *FnRun, st *State, c ssa.CallInstruction, a []Val) (Val, bool) {
 }
 
 func inAlloc(r *FnRun, st *State, c ssa.CallInstruction, a []Val, zero bool) (Val, bool) {
-	r.E.Trusted["allocator AllocZ/AllocU: returns a fresh block of the requested size, disjoint from all live memory, non-nil for size > 0 (zeroed for AllocZ); requested sizes above 2^47 are not modelled"] = true
+	r.E.Trusted["allocator AllocZ/AllocU: returns a fresh block of the requested size, disjoint from all live memory, non-nil for size > 0 (zeroed for AllocZ); a request above 2^48 bytes does not return (allocator aborts)"] = true
 	size := a[0].(Term)
 	site := siteOf(r, c, "Alloc")
-	// a request the address space cannot hold is outside the model: obligation
-	r.addGoal(st, site+"/pre.size-bound", r.posOf(c.(ssa.Instruction)), Le(size, BVInt(addrLimit, 64, false)), nil)
+	// a request the address space cannot hold does not return (the allocator aborts)
+	_ = site
+	st.assume(Le(size, BVInt(addrLimit, 64, false)), "allocator returns only for sizes within the address space")
 	addr := st.declare(r.freshName("alloc"), BV(PtrW, false))
 	r.registerFresh(st, addr, size)
 	if zero {
@@ -144,6 +146,9 @@ func MulOverflows(x, y Term) Term {
 		if yv.Sign() == 0 || yv.Int64() == 1 {
 			return False
 		}
+	}
+	if x.Sort.K == KInt {
+		return Term{fmt.Sprintf("(> (* %s %s) %s)", x.S, y.S, new(big.Int).Sub(pow2(64), big.NewInt(1))), BoolSort()}
 	}
 	a, b := x, y
 	if a.S > b.S {
